@@ -201,6 +201,17 @@ def run(ctx):
             if ob2["outcome"] != "ok" and ob2.get("phase") == "startup":
                 raise MachineryError(f"real cluster of scenario {sc} could not be started twice: {ob2.get('stderr_tail', '')[-400:]}")
             return ob2
+        if ob.get("segments", 0) > 0 and ob.get("leftover_procs", 0) == 0 and sc["mode"] not in ("kill_helper_first", "term_helper_first",
+                                                                                               "kill_remote_helper_first"):
+            # Segments left although every process is gone and the shm server was not the victim. Seen once in a thorough run on a
+            # machine at load 30 (exit1 in t2@after_compute, 2x1) and never again: Executor.terminate shuts the shm server down BEFORE it
+            # kills the data server, so a payload store that was granted just before can create its segment after Manager.atexit
+            # has run (DESIGN.md 10.3, suspected teardown race). A leak that belongs to the scenario shows again: run it twice more.
+            again = [run_scenario(sc, base + (len(cases) + i) * 40 + 13 * (k + 1), tag + f"s{k}", deadline, ctx.scratch) for k in range(2)]
+            worst = max(again, key=lambda o: (o.get("segments", 0), o["outcome"] == "hang"))
+            worst["rerun"] = "segments"
+            worst["first_attempt_segments"] = ob["segments"]
+            return worst
         if ob["outcome"] == "hang" and not ob.get("in_recv_events", False):
             # a miss that is not the controller waiting in recv_events is re-run once (machine load)
             ob2 = run_scenario(sc, base + (len(cases) + i) * 40, tag + "r", deadline, ctx.scratch)
